@@ -4,6 +4,7 @@ package main
 
 import (
 	"fmt"
+	"os"
 	"go/constant"
 	"go/token"
 	"go/types"
@@ -30,6 +31,7 @@ type Env struct {
 	quiet    bool
 	own      bool // evaluating the contract of the function being translated
 	pol      int  // +1: must be proved, -1: may be used, 0: unknown
+	instOnly []Val // when set: instantiate quantified hypotheses with exactly these terms and drop the quantified original
 	inQuant  bool
 	bound    map[string]Val
 }
@@ -85,12 +87,23 @@ func (e *Env) withPol(p int) *Env {
 	return &e2
 }
 
+var macroTable map[string]*SpecFunc
+
+// dropQuantified: hypotheses of the form forall x. P are replaced by their instances at the index
+// terms known to the generator (sound: only weakens hypotheses); set GOVC_KEEPQ=1 to keep the original too.
+var dropQuantified = os.Getenv("GOVC_KEEPQ") == ""
+
 func hasQuant(x *Expr) bool {
 	if x == nil {
 		return false
 	}
 	if x.Op == "forall" || x.Op == "exists" {
 		return true
+	}
+	if x.Op == "call" {
+		if sf := macroTable[x.S]; sf != nil && sf.Macro && hasQuant(sf.Body) {
+			return true
+		}
 	}
 	for _, a := range x.A {
 		if hasQuant(a) {
@@ -120,6 +133,17 @@ var boolT = types.Typ[types.Bool]
 var intT = types.Typ[types.Int]
 
 func (e *Env) typeByName(n string) types.Type {
+	if strings.HasPrefix(n, "[]") {
+		return types.NewSlice(e.typeByName(n[2:]))
+	}
+	if strings.HasPrefix(n, "*") {
+		return types.NewPointer(e.typeByName(n[1:]))
+	}
+	if i := strings.Index(n, "."); i > 0 {
+		if t := e.lookupType(&Expr{Op: "sel", S: n[i+1:], A: []*Expr{{Op: "id", S: n[:i]}}}); t != nil {
+			return t
+		}
+	}
 	switch n {
 	case "wide":
 		return tyWide
@@ -456,6 +480,55 @@ func (e *Env) localVar(name string) (Val, bool) {
 	return Val{}, false
 }
 
+// localAddr resolves a source-level local variable that lives in memory (address-taken) to its address.
+func (e *Env) localAddr(name string) (string, types.Type, bool) {
+	tr := e.tr
+	b := e.block
+	idx := e.idx
+	for b != nil {
+		instrs := b.Instrs
+		if idx > len(instrs) {
+			idx = len(instrs)
+		}
+		for i := idx - 1; i >= 0; i-- {
+			switch in := instrs[i].(type) {
+			case *ssa.DebugRef:
+				if obj := in.Object(); obj != nil && obj.Name() == name {
+					vobj, isVar := obj.(*types.Var)
+					if !isVar || vobj.IsField() || (vobj.Pkg() != nil && vobj.Parent() == vobj.Pkg().Scope()) {
+						continue
+					}
+					if !in.IsAddr {
+						// a use of the whole variable: `*alloc` was loaded; the variable lives at alloc
+						if ld, ok := in.X.(*ssa.UnOp); ok && ld.Op == token.MUL {
+							if al, ok := ld.X.(*ssa.Alloc); ok {
+								if v, ok := tr.vals[al]; ok {
+									return v.T, al.Type().Underlying().(*types.Pointer).Elem(), true
+								}
+							}
+						}
+						return "", nil, false
+					}
+					v, ok := tr.vals[in.X]
+					if !ok {
+						return "", nil, false
+					}
+					return v.T, in.X.Type().Underlying().(*types.Pointer).Elem(), true
+				}
+			case *ssa.Phi:
+				if in.Comment == name {
+					return "", nil, false
+				}
+			}
+		}
+		b = b.Idom()
+		if b != nil {
+			idx = len(b.Instrs)
+		}
+	}
+	return "", nil, false
+}
+
 // withSite marks a value as a reference to a call site.
 func (v Val) withSite(s *Site) Val {
 	v.Tuple = nil
@@ -619,7 +692,7 @@ func (e *Env) binary(x *Expr) Val {
 			if tr.smt.sortOf(a.Ty) != tr.smt.sortOf(b.Ty) {
 				e.fail("comparison of different sorts: %s vs %s", a.Ty, b.Ty)
 			}
-			t = fmt.Sprintf("(= %s %s)", a.T, b.T)
+			t = tr.equal(a, b)
 		}
 		if op == "!=" || op == "!==" {
 			t = tr.boolNot(t)
@@ -705,6 +778,22 @@ func (e *Env) addrOf(x *Expr) (string, types.Type, bool) {
 		if _, isLocal := e.bound[x.S]; isLocal {
 			return "", nil, false
 		}
+		if _, ov := e.override[x.S]; ov {
+			return "", nil, false
+		}
+		if e.own {
+			isParam := false
+			for _, p := range tr.fn.Params {
+				if p.Name() == x.S {
+					isParam = true // parameters denote their value on entry, even when spilled to memory
+				}
+			}
+			if !isParam {
+				if a, t, ok := e.localAddr(x.S); ok {
+					return a, t, true
+				}
+			}
+		}
 		if e.pkg != nil {
 			if obj, ok := e.pkg.Scope().Lookup(x.S).(*types.Var); ok && obj != nil {
 				if _, shadow := e.vars[x.S]; !shadow {
@@ -739,7 +828,7 @@ func (e *Env) addrOf(x *Expr) (string, types.Type, bool) {
 		if a, t, ok := e.addrOf(x.A[0]); ok {
 			if pt, isPtr := t.Underlying().(*types.Pointer); isPtr {
 				// auto-deref: load the pointer
-				baseAddr = tr.load(e.heap, a, t, "true", true)
+				baseAddr = e.named(Val{T: tr.load(e.heap, a, t, "true", true), Ty: t}).T
 				baseTy = pt.Elem()
 			} else {
 				baseAddr, baseTy = a, t
@@ -812,6 +901,18 @@ func (e *Env) evalNoSite(x *Expr) Val {
 	return v
 }
 
+// named gives a long closed term (no bound variable inside) a name so that it is not repeated.
+func (e *Env) named(v Val) Val {
+	if v.T == "" || len(v.T) < 60 || strings.Contains(v.T, "q%%") || strings.Contains(v.T, "p%%") || strings.Contains(v.T, "r%%") {
+		return v
+	}
+	if v.Ty == nil {
+		return v
+	}
+	v.T = e.tr.smt.defineCached("cx", e.tr.smt.sortOf(v.Ty), v.T)
+	return v
+}
+
 func (e *Env) selector(x *Expr) Val {
 	tr := e.tr
 	// package-qualified name
@@ -838,7 +939,7 @@ func (e *Env) selector(x *Expr) Val {
 		}
 	}
 	if a, t, ok := e.addrOf(x); ok {
-		return Val{T: tr.load(e.heap, a, t, "true", true), Ty: t}
+		return e.named(Val{T: tr.load(e.heap, a, t, "true", true), Ty: t})
 	}
 	v := e.eval(x.A[0])
 	if v.Ty == nil {
@@ -894,7 +995,7 @@ func (e *Env) siteMember(s *Site, m string) Val {
 func (e *Env) indexExpr(x *Expr) Val {
 	tr := e.tr
 	if a, t, ok := e.addrOf(x); ok {
-		return Val{T: tr.load(e.heap, a, t, "true", true), Ty: t}
+		return e.named(Val{T: tr.load(e.heap, a, t, "true", true), Ty: t})
 	}
 	base := e.eval(x.A[0])
 	i := e.coerce(e.eval(x.A[1]), intT)
@@ -976,6 +1077,21 @@ func (e *Env) callExpr(x *Expr) Val {
 			e.fail("site %s has not been reached on this path", x.A[0].S)
 		}
 		return e2.eval(x.A[1])
+	case "as":
+		// as(x, T): the dynamic value of interface x viewed as concrete type T (meaningful when typeof(x) == T)
+		if len(x.A) != 2 {
+			e.fail("as(x, T)")
+		}
+		v := e.eval(x.A[0])
+		if !isIfaceT(v.Ty) {
+			e.fail("as() needs an interface value")
+		}
+		ty := e.lookupType(x.A[1])
+		if ty == nil {
+			e.fail("unknown type %s", x.A[1])
+		}
+		_, unbox := tr.smt.boxFn(tr.smt.sortOf(ty))
+		return Val{T: fmt.Sprintf("(%s (idata %s))", unbox, v.T), Ty: ty}
 	case "nonnil":
 		v := e.eval(x.A[0])
 		return Val{T: tr.boolNot(e.isNil(v)), Ty: boolT}
@@ -1002,6 +1118,24 @@ func (e *Env) callExpr(x *Expr) Val {
 		}
 	}
 	// spec / uninterpreted functions
+	if sf := tr.eng.specFuncs[x.S]; sf != nil && sf.Macro {
+		if len(x.A) != len(sf.Params) {
+			e.fail("macro %s takes %d arguments", sf.Name, len(sf.Params))
+		}
+		e2 := *e
+		e2.bound = map[string]Val{}
+		for k, v := range e.bound {
+			e2.bound[k] = v
+		}
+		for i, p := range sf.Params {
+			v := e.eval(x.A[i])
+			if v.Const != nil {
+				v = e.coerce(v, e.typeByName(p.Type))
+			}
+			e2.bound[p.Name] = v
+		}
+		return e2.eval(sf.Body)
+	}
 	if sf := tr.eng.specFuncs[x.S]; sf != nil {
 		name := tr.declareSpec(sf, e)
 		var as []string
@@ -1055,7 +1189,11 @@ func (e *Env) quant(x *Expr) Val {
 			n := tr.smt.fresh("sk_"+qv.Name, tr.smt.sortOf(t))
 			v := Val{T: n, Ty: t}
 			b[qv.Name] = v
-			tr.idxCands = append(tr.idxCands, v)
+			if e.pol > 0 {
+				tr.skolems = append(tr.skolems, v) // skolem of a goal: local to the obligation
+			} else {
+				tr.idxCands = append(tr.idxCands, v) // witness named by a hypothesis: usable everywhere after
+			}
 		}
 		return mk(b).eval(x.A[0])
 	}
@@ -1063,7 +1201,7 @@ func (e *Env) quant(x *Expr) Val {
 	b := map[string]Val{}
 	for _, qv := range x.Vars {
 		t := e.typeByName(qv.Type)
-		n := "q!" + qv.Name
+		n := "q%%" + qv.Name
 		b[qv.Name] = Val{T: n, Ty: t}
 		decls = append(decls, fmt.Sprintf("(%s %s)", n, tr.smt.sortOf(t)))
 	}
@@ -1079,6 +1217,9 @@ func (e *Env) quant(x *Expr) Val {
 		var insts []string
 		seen := map[string]bool{}
 		cands := tr.candidates(srt)
+		if e.instOnly != nil {
+			cands = tr.candidatesOf(e.instOnly, srt)
+		}
 		for _, c := range cands {
 			if seen[c] {
 				continue
@@ -1087,23 +1228,50 @@ func (e *Env) quant(x *Expr) Val {
 			ie := mk(map[string]Val{qv.Name: {T: c, Ty: t}})
 			insts = append(insts, ie.eval(x.A[0]).T)
 		}
+		if e.instOnly != nil {
+			if x.Op == "forall" {
+				return Val{T: and(insts...), Ty: boolT}
+			}
+			// an existential hypothesis contributes nothing new when re-instantiated
+			return Val{T: "true", Ty: boolT}
+		}
+		if dropQuantified {
+			// generator-side instantiation only: the query stays quantifier-free
+			if x.Op == "forall" {
+				return Val{T: and(insts...), Ty: boolT}
+			}
+			return Val{T: or(insts...), Ty: boolT}
+		}
 		if x.Op == "forall" {
 			return Val{T: and(append([]string{q}, insts...)...), Ty: boolT}
 		}
 		return Val{T: or(append([]string{q}, insts...)...), Ty: boolT}
+	}
+	if e.instOnly != nil && toUse {
+		return Val{T: "true", Ty: boolT}
 	}
 	return Val{T: q, Ty: boolT}
 }
 
 // candidates lists index terms of the given sort that quantified hypotheses are instantiated with.
 func (tr *FnTrans) candidates(srt string) []string {
+	return tr.candidatesOf(append(append([]Val{}, tr.globalCands()...), tr.skolems...), srt)
+}
+
+func (tr *FnTrans) candidatesOf(cands []Val, srt string) []string {
 	var out []string
 	add := func(t string) {
 		out = append(out, t)
 	}
+	if srt == tr.smt.intSortW(64) {
+		// small constant indices are always tried (chain[0], chain[1], Proof[0] ...)
+		for _, k := range []int64{0, 1, 2} {
+			add(tr.smt.intLit(big.NewInt(k), 64))
+		}
+	}
 	n := 0
-	for i := len(tr.idxCands) - 1; i >= 0 && n < 8; i-- {
-		c := tr.idxCands[i]
+	for i := len(cands) - 1; i >= 0 && n < 10; i-- {
+		c := cands[i]
 		if tr.smt.sortOf(c.Ty) != srt {
 			continue
 		}
@@ -1134,7 +1302,7 @@ func (tr *FnTrans) declareSpec(sf *SpecFunc, e *Env) string {
 	se := &Env{tr: tr, vars: map[string]Val{}, heap: e.heap, oldHeap: e.oldHeap, pkg: e.pkg, imports: e.imports, quiet: true, bound: map[string]Val{}}
 	for _, p := range sf.Params {
 		t := e.typeByName(p.Type)
-		n := "p!" + p.Name
+		n := "p%%" + p.Name
 		ps = append(ps, fmt.Sprintf("(%s %s)", n, tr.smt.sortOf(t)))
 		pss = append(pss, tr.smt.sortOf(t))
 		se.bound[p.Name] = Val{T: n, Ty: t}
